@@ -796,7 +796,7 @@ func c09ConcHistory(rep *verifkit.Report, rng *rand.Rand, dir string, idx int, s
 
 func TestVerifC09Concurrent(t *testing.T) {
 	rep := verifkit.New(c09Prop(), c09Part(),
-		"case = one round of a concurrent history on a running module: 8 updater goroutines + 2 readers of GET /control/stats (+ hour advancer that either calls flush() as the only flusher or, with the real Start() loop alive, waits for it; + optional retention toggler); checked per read (between completed and started updates), per round with porcupine against a counter model, at quiescence exactly (totals, categories, per-hour bounds from the hour tags), and across a final clean restart; -race is on; non-trivial = the round had a rollover that overlapped at least one update; distinct by the observed operation order and read values; storm rounds: 24-60 back-to-back rollovers under 4 hammering readers; reset rounds (C09 only): POST /control/stats_reset hammered against the real loop and readers while every tick is a rollover, then reset, count, advance, wait for the real loop, count, compare")
+		"case = one round of a concurrent history on a running module: 8 updater goroutines + 2 readers of GET /control/stats (+ hour advancer that either calls flush() as the only flusher or, with the real Start() loop alive, waits for it; + optional retention toggler); checked per read (between completed and started updates), per round with porcupine against a counter model, at quiescence exactly (totals, categories, per-hour bounds from the hour tags), and across a final clean restart; -race is on; non-trivial = the round had a rollover that overlapped at least one update; distinct by the observed operation order and read values; storm rounds: 24-60 back-to-back rollovers under 4 hammering readers; reset rounds (C09 only): POST /control/stats_reset hammered against the real loop and readers while every tick is a rollover, then reset, count, advance, wait for the real loop, count, compare; shutdown rounds (C09 only): counts in hour H, a writer transaction (as a dashboard read holds) delays Close between detaching the database and serialising the unit, the hour id changes and flush runs in that gap, then New on the same file and the model comparison")
 	defer func() {
 		if err := rep.Write(); err != nil {
 			t.Fatal(err)
@@ -837,6 +837,11 @@ func TestVerifC09Concurrent(t *testing.T) {
 			c09ResetLoopHistory(rep, rng, dir, i)
 		}
 		need = append(need, "reset_rounds_checked_after_real_loop_rotation", "resets_during_traffic")
+		nDirect, nLoop := verifkit.Pick(16, 150), verifkit.Pick(2, 12)
+		for i := 0; i < nDirect+nLoop && !rep.Violated(); i++ {
+			c09ShutdownOverlapHistory(rep, rng, dir, i, i < nLoop)
+		}
+		need = append(need, "flush_calls_between_detach_and_serialisation_of_a_close")
 	}
 	if rep.Violated() {
 		return
@@ -1104,5 +1109,176 @@ func c09ResetLoopHistory(rep *verifkit.Report, rng *rand.Rand, dir string, idx i
 	rep.Class("shape:reset-vs-real-loop")
 	if idx == 0 {
 		rep.Sample(map[string]any{"reset_round": steps})
+	}
+}
+
+// c09ShutdownOverlapHistory: a clean shutdown that overlaps the hourly check.
+//
+// Close detaches the database (s.db.Swap(nil)), then waits for bbolt's writer
+// lock (db.Begin(true)), and only then serialises the current unit.  Every
+// GET /control/stats and TopClientsIP holds that writer lock while it loads
+// the units, so the gap lasts as long as a dashboard read.  The history holds
+// the gap open the way such a read does (a writable transaction on the
+// module's database), lets the hour id change and the once-a-second check
+// run inside the gap (flush() called as the only flusher, or the real Start()
+// loop given 1.3 s), releases the transaction, and after Close has returned
+// opens the file again.  Every update had returned before Close was called,
+// so all of them must be reported in their hours.
+//
+// The hour changes only after the database has been seen detached: a flush
+// that had already loaded the database pointer could otherwise block in
+// db.Begin while holding currMu, which Close needs after it got the writer
+// lock (lock-order inversion of the unchanged product, see the notes); that
+// would be a stall, not a statement about counts.
+func c09ShutdownOverlapHistory(rep *verifkit.Report, rng *rand.Rand, dir string, idx int, realLoop bool) {
+	file := filepath.Join(dir, fmt.Sprintf("shutdown-%d.db", idx))
+	defer os.Remove(file)
+	hour := &atomic.Uint32{}
+	hour.Store(400000 + uint32(rng.Intn(100000)))
+	limitH := []uint32{24, 24, 168}[rng.Intn(3)]
+	m := &c09Model{Hours: map[uint32]*c09Hour{}, Cur: hour.Load(), LimitH: limitH, Enabled: true}
+	steps := []any{fmt.Sprintf("New(limit %d h) at hour %d, real loop: %v", limitH, hour.Load(), realLoop)}
+	in, err := c09Open(file, hour, limitH, true, realLoop)
+	if err != nil {
+		rep.Violate("conc:new-failed", "stats.New failed on a fresh file: "+err.Error(), steps)
+		return
+	}
+	stopped := false
+	defer func() {
+		if !stopped {
+			in.close()
+			c09StopLoop(in)
+		}
+	}()
+	violate := func(key, what string, extra map[string]any) {
+		w := map[string]any{"steps": steps, "model": m.snapshot()}
+		for k, v := range extra {
+			w[k] = v
+		}
+		rep.Violate(key, what, w)
+	}
+	burst := func() {
+		n := 1 + rng.Intn(40)
+		for i := 0; i < n; i++ {
+			e := c09ValidEntry(rng, 20, 30)
+			in.update(e)
+			m.count(m.Cur, e.Result)
+		}
+		steps = append(steps, fmt.Sprintf("%d countable updates in hour %d (all returned)", n, m.Cur))
+	}
+	// Earlier hours, rolled over the ordinary way (single flusher).
+	if !realLoop {
+		for i, n := 0, rng.Intn(3); i < n; i++ {
+			burst()
+			k := 1 + uint32(rng.Intn(2))
+			hour.Add(k)
+			if p := in.flush(); p != "" {
+				violate("conc:flush-panic", "flush crashed: "+p, nil)
+				return
+			}
+			m.Cur = hour.Load()
+			m.expire()
+			steps = append(steps, fmt.Sprintf("hour +%d, flush()", k))
+		}
+	}
+	burst()
+	hourH := m.Cur
+
+	db := in.s.db.Load()
+	if db == nil {
+		rep.Inconcl("shutdown round: the module has no database before Close")
+		return
+	}
+	tx, err := db.Begin(true)
+	if err != nil {
+		rep.Inconcl("shutdown round: cannot open the writer transaction that stands for a dashboard read: " + err.Error())
+		return
+	}
+	steps = append(steps, "a writable transaction is open on the database (as loadUnits holds during GET /control/stats)")
+	closed := make(chan string, 1)
+	go func() { closed <- in.close() }()
+	detached := false
+	for deadline := time.Now().Add(10 * time.Second); time.Now().Before(deadline); {
+		if detached = in.s.db.Load() == nil; detached {
+			break
+		}
+		time.Sleep(200 * time.Microsecond)
+	}
+	if !detached {
+		_ = tx.Rollback()
+		<-closed
+		stopped = true
+		c09StopLoop(in)
+		rep.Unspec("shutdown-round:close-did-not-detach-the-database-first")
+		rep.Eval(false, "")
+		return
+	}
+	for y := rng.Intn(4); y > 0; y-- {
+		runtime.Gosched()
+	}
+	k := 1 + uint32(rng.Intn(4))
+	hour.Add(k)
+	steps = append(steps, fmt.Sprintf("Close called in another goroutine; database seen detached; hour id +%d = %d", k, hour.Load()))
+	if realLoop {
+		time.Sleep(1300 * time.Millisecond) // one period of the real loop plus slack; workload shaping only
+		steps = append(steps, "1.3 s for the real loop's once-a-second check")
+		rep.Event("shutdown_gaps_held_over_a_real_loop_tick")
+	} else {
+		for i, n := 0, 1+rng.Intn(2); i < n; i++ {
+			if p := in.flush(); p != "" {
+				_ = tx.Rollback()
+				violate("conc:flush-panic:during-close", "flush crashed while Close was in progress: "+p, nil)
+				return
+			}
+			rep.Event("flush_calls_between_detach_and_serialisation_of_a_close")
+		}
+		steps = append(steps, "flush() (the hourly check) ran while Close was waiting for the writer lock")
+	}
+	if err = tx.Rollback(); err != nil {
+		rep.Inconcl("shutdown round: rollback of the harness transaction failed: " + err.Error())
+		return
+	}
+	select {
+	case p := <-closed:
+		stopped = true
+		c09StopLoop(in)
+		if p != "" {
+			violate("conc:close-failed:close-overlapping-rollover", "Close failed: "+p, nil)
+			return
+		}
+	case <-time.After(c09StallAfter):
+		buf := make([]byte, 4<<20)
+		fmt.Fprintf(os.Stderr, "C09 watchdog: Close did not return in %s\n%s\n", c09StallAfter, buf[:runtime.Stack(buf, true)])
+		rep.Inconcl(fmt.Sprintf("Close overlapping the hourly check did not return within %s (goroutine dump in the part's log)", c09StallAfter))
+		_ = rep.Write()
+		os.Exit(3)
+	}
+	steps = append(steps, "transaction rolled back; Close returned")
+	rep.Event("shutdown_overlap_rounds")
+
+	in2, err := c09Open(file, hour, limitH, true, false)
+	if err != nil {
+		violate("conc:new-failed:close-overlapping-rollover", "stats.New failed on the file a clean Close left: "+err.Error(), nil)
+		return
+	}
+	defer in2.close()
+	m.Cur = hour.Load()
+	m.expire()
+	steps = append(steps, fmt.Sprintf("New on the same file at hour %d", m.Cur))
+	r, problem := in2.read()
+	if problem != "" {
+		violate("conc:read-failed:close-overlapping-rollover", "GET /control/stats failed after the restart: "+problem, nil)
+		return
+	}
+	mm, _ := m.check(r)
+	if len(mm) > 0 {
+		violate("conc:"+mm[0].Kind+":close-overlapping-rollover",
+			fmt.Sprintf("queries counted before a clean Close (hour %d) are not reported after the restart: %s", hourH, mm[0].Detail),
+			map[string]any{"mismatches": mm, "report": c09Brief(r, m.first())})
+	}
+	rep.Eval(len(mm) == 0, fmt.Sprintf("shutdown|%d|%v|%s", idx, realLoop, verifkit.JSON(steps)))
+	rep.Class("shape:close-overlapping-rollover")
+	if idx == 0 {
+		rep.Sample(map[string]any{"shutdown_round": steps})
 	}
 }
